@@ -9,7 +9,7 @@ import glob, importlib, json, os, subprocess, sys
 
 import common
 
-MORE_PROPS = ['MaltModel.Props.C01Jumps', 'MaltModel.Props.C01Func', 'MaltModel.Props.C01Exprs', 'MaltModel.Props.C01Compose']   # per-pass theorem modules + their composition
+MORE_PROPS = ['MaltModel.Props.C01Jumps', 'MaltModel.Props.C01Func', 'MaltModel.Props.C01Exprs', 'MaltModel.Props.C01Compose', 'MaltModel.Props.C01CF']   # per-pass theorem modules + their composition
 PART_HOOKS = []   # per-pass correspondences are wired in when the pass builders deliver them
 
 
